@@ -141,6 +141,8 @@ def identical(a, b):
         return False
     if is_concrete(a) and is_concrete(b) and not isinstance(a, tuple):
         return a == b and type(a) is type(b)
+    if isinstance(a, (SObj, Opaque)) and isinstance(b, (SObj, Opaque)):
+        return a.uid == b.uid  # snapshots taken for old(...) keep the uid
     return a is b
 
 
